@@ -13,6 +13,7 @@ func c10Histories(tier string) [][]string {
 		`sq(4)`,
 		`for i=2 {for j=2 {println(i,j)}}`,
 		`println(a+b)`,
+		`u=a; n=b; println(u, n)`,
 	}
 	fail := []string{
 		`!func e1(u){error("bad")}; func e2(u){1+e1(u)}; e2(a)`,
@@ -23,6 +24,9 @@ func c10Histories(tier string) [][]string {
 		`!for i=2 {func(){for j=2 {r3=func(n){r3(n+1)}; r3(0)}}()}`,
 		`!undefined_name`,
 		`![1,2,3][b:a][0]()`,
+		// the failing call's parameters and locals carry the names of globals the later inputs read and write
+		`!func e3(u, n, t){m := [u]; error("bad")}; e3("s", "n", "t")`,
+		`!func e4(i){for 2 {e3b=func(u, n){error("inner")}; e3b(i, i)}}; e4("x")`,
 	}
 	var out [][]string
 	for _, f := range fail {
@@ -42,6 +46,10 @@ func c10Histories(tier string) [][]string {
 			out = append(out, []string{ok[1], f1, f2, ok[6], ok[2], ok[7]})
 		}
 	}
+	// definitions made between two failures, used after the second one
+	for _, f1 := range fail {
+		out = append(out, []string{ok[9], f1, `w=5; func dbl(z){z*2}`, fail[8], `println(w, dbl(4), u, n)`, fail[0], `println(w, dbl(w))`})
+	}
 	return out
 }
 
@@ -57,7 +65,7 @@ func init() {
 		},
 		Budget: map[string]time.Duration{"quick": 6 * time.Minute, "thorough": 40 * time.Minute},
 		Reach:  []string{"failing input failed", "failing input panicked"},
-		Bounds: map[string]interface{}{"histories": "9 succeeding inputs (prints, function definitions and calls, loops, closures, map updates, recursion) and 8 failing ones (error in nested calls, error in a loop, depth overflow at top level / inside a function that printed / inside nested loops and lambdas, error after a print inside a function, unknown identifier, ill-typed call); every failing input between a third of the ordered pairs of succeeding inputs (all pairs thorough), repeated failures at several positions, every ordered pair of failing inputs in a row",
+		Bounds: map[string]interface{}{"histories": "10 succeeding inputs (prints, function definitions and calls, loops, closures, map updates, recursion) and 10 failing ones (failing calls whose parameters and locals are named like globals, error in nested calls, error in a loop, depth overflow at top level / inside a function that printed / inside nested loops and lambdas, error after a print inside a function, unknown identifier, ill-typed call); every failing input between a third of the ordered pairs of succeeding inputs (all pairs thorough), repeated failures at several positions, every ordered pair of failing inputs in a row, definitions made between two failures and used after the second; after every input the state is also required to be back at the root scope with depth 0 and the session writer in place",
 			"values": "a, b: all int64", "max_depth": 40},
 		Assumptions: []string{"deadline failures are not modelled (context.WithTimeout is stubbed to its parent): covered for the evaluator by C09's cancellation lemma"},
 		Outside:     []string{"timeouts inside the REPL", "longer histories"},
